@@ -33,20 +33,21 @@ type Anchored struct {
 // Forge classes for signed operations.
 const (
 	ForgeNone           = ""
-	ForgeSigRandom      = "sig-random"      // right reveal, signature bytes replaced by deterministic noise
-	ForgeSigForeign     = "sig-foreign"     // right reveal, signed by another key
-	ForgeSigBitflip     = "sig-bitflip"     // right reveal, one bit of the genuine signature flipped
-	ForgePayloadAltered = "payload-altered" // signed payload changed after signing (other next commitment / suffix)
-	ForgeRevealMismatch = "reveal-mismatch" // reveal value of the legitimate key, signed data carries the attacker's key (self-signed)
-	ForgeOtherKey       = "other-key"       // attacker key revealed consistently with its own valid signature
-	ForgeOtherDID       = "other-did"       // deactivate genuinely signed for another DID suffix
-	ForgeNoSignedData   = "no-signed-data"  // signedData member removed
-	ForgeSigTruncated   = "sig-truncated"   // signature shortened by one byte
-	ForgeSigEmpty       = "sig-empty"       // empty signature segment
+	ForgeSigRandom      = "sig-random"              // right reveal, signature bytes replaced by deterministic noise
+	ForgeSigForeign     = "sig-foreign"             // right reveal, signed by another key
+	ForgeSigBitflip     = "sig-bitflip"             // right reveal, one bit of the genuine signature flipped
+	ForgePayloadAltered = "payload-altered"         // signed payload changed after signing (other next commitment / suffix)
+	ForgeRevealMismatch = "reveal-mismatch"         // reveal value of the legitimate key, signed data carries the attacker's key (self-signed)
+	ForgeOtherKey       = "other-key"               // attacker key revealed consistently with its own valid signature
+	ForgeOtherKeyClaim  = "other-key-claims-reveal" // as other-key, and the signed data additionally names the legitimate key's reveal value (revealValue member)
+	ForgeOtherDID       = "other-did"               // deactivate genuinely signed for another DID suffix
+	ForgeNoSignedData   = "no-signed-data"          // signedData member removed
+	ForgeSigTruncated   = "sig-truncated"           // signature shortened by one byte
+	ForgeSigEmpty       = "sig-empty"               // empty signature segment
 )
 
 // AllForges lists the forgery classes applicable to every signed type.
-var AllForges = []string{ForgeSigRandom, ForgeSigForeign, ForgeSigBitflip, ForgePayloadAltered, ForgeRevealMismatch, ForgeOtherKey, ForgeNoSignedData, ForgeSigTruncated, ForgeSigEmpty}
+var AllForges = []string{ForgeSigRandom, ForgeSigForeign, ForgeSigBitflip, ForgePayloadAltered, ForgeRevealMismatch, ForgeOtherKey, ForgeOtherKeyClaim, ForgeNoSignedData, ForgeSigTruncated, ForgeSigEmpty}
 
 // Invalid-delta variants.
 const (
@@ -311,6 +312,14 @@ func NewSigned(s SignedSpec) *Op {
 		req = alt.Request()
 		d.Consumes = asm.Commit(att, s.Code)
 		// self-consistent and validly signed: it is "authorised" for the attacker's own commitment, which is never in force
+	case ForgeOtherKeyClaim:
+		alt := *b
+		legit := asm.Reveal(b.RevealKey, s.Code)
+		alt.RevealKey = att
+		alt.Header = nil
+		alt.ExtraSigned = map[string]interface{}{"revealValue": legit}
+		req = alt.Request()
+		d.Consumes = asm.Commit(att, s.Code)
 	case ForgeOtherDID:
 		other := "EiD_other_did_suffix_that_is_not_this_one_000000"
 		alt := *b
